@@ -85,6 +85,20 @@ theorem parse_isStr (L : Lex F C) (s : Str) (p : JV F C) (hb : startsBracket s =
           rw [str2literal_not_str s v hl] at hs; cases hs
         | none => simp [hi, hf, hl] at hp; exact hp.symm
 
+/-- The string branch of `parse_tag_value` is the identity: a non-empty text that does not start with `[`, `{`, `"` and
+is rejected by `int()`, `float()` and the literal table is returned unchanged — code point by code point (the model text
+is the list of code points; no normalisation, folding or stripping).  The harness checks the same statement on the real
+function for every generated text. -/
+theorem parse_string_identity (L : Lex F C) (s : Str) (h0 : s ≠ []) (hb : startsBracket s = false)
+    (hi : L.pyInt s = none) (hf : L.pyFloat s = none) (hl : (str2literal s : Option (JV F C)) = none) :
+    parse L s = .ok (.str s) := by
+  simp [parse, h0, hb, hi, hf, hl]
+
+/-- non-vacuity: a decomposed `é` after `caf` in the toy-free setting of any `L` rejecting it -/
+example (L : Lex F C) (hi : L.pyInt ['e', '\u0301'] = none) (hf : L.pyFloat ['e', '\u0301'] = none) :
+    parse L ['e', '\u0301'] = .ok (.str ['e', '\u0301']) :=
+  parse_string_identity L _ (by simp) (by simp [startsBracket]) hi hf (by simp [str2literal, sTrue, sFalse, sNull])
+
 /-- JSON display of any value parses back to the value. -/
 theorem parse_dumps (L : Lex F C) (h : LexLaws L) (v : JV F C) : parse L (L.dumps v) = .ok v := by
   cases v with
